@@ -5,6 +5,7 @@ CONSTANTS
   NLs = {0, 1, 2}
   Poses = {0, 1, 2}
   Dump = TRUE
+  LineNums = TRUE
 INVARIANT Agree
 INVARIANT ExactlyOnce
 INVARIANT MarkersAligned
